@@ -746,10 +746,18 @@ def json_path():
         raise PathChanged("cannot identify a unique encoder/decoder: dump cls=%s, load cls=%s" % (enc, dec))
     encoder = getattr(pu, next(iter(enc)))
     decoder = getattr(tt, next(iter(dec_ck)))
-    src_main = inspect.getsource(tt.main)
-    for needle in ("load_state_dict(others[obj.id])", "update_parameters(data, tensors)"):
-        if needle not in src_main:
-            raise PathChanged("main() no longer contains %r" % needle)
+    # shape of the restore path in main(), structurally (the names of main()'s locals are not part of it):
+    #   update_parameters(<config>, <tensors by id>)   and   <obj>.load_state_dict(<others by id>[<obj>.id])
+    t_main = ast.parse(textwrap.dedent(inspect.getsource(tt.main)))
+    has_update = any(isinstance(n, ast.Call) and _dotted(n.func) == "update_parameters" and len(n.args) == 2 for n in ast.walk(t_main))
+    has_load = any(isinstance(n, ast.Call) and isinstance(n.func, ast.Attribute) and n.func.attr == "load_state_dict" and len(n.args) == 1
+                   and isinstance(n.args[0], ast.Subscript) and isinstance(n.args[0].slice, ast.Attribute) and n.args[0].slice.attr == "id"
+                   and isinstance(n.func.value, ast.Name) and isinstance(n.args[0].slice.value, ast.Name) and n.func.value.id == n.args[0].slice.value.id
+                   for n in ast.walk(t_main))
+    if not has_update:
+        raise PathChanged("main() no longer calls update_parameters(<config>, <checkpoint tensors>)")
+    if not has_load:
+        raise PathChanged("main() no longer calls <obj>.load_state_dict(<checkpoint entries>[<obj>.id])")
     return encoder, decoder
 
 
